@@ -134,7 +134,8 @@ def rule_d(ctx, cr):
     inv = False
     for b, code, span in p.error_codes():
         for op, l, r, truth in p.cmp_conds_at(b):
-            if op == "Gt" and truth and "from_num" in p.describe(l) and "to_num" in p.describe(r):
+            if op == "Gt" and truth and not p.describe(l).startswith("const:") and \
+                    not p.describe(r).startswith("const:"):
                 inv = True
     # defaults are chosen by presence of a number, never by its value: the only comparison of
     # parsed numbers in the range parser is from > to (no comparison with a constant)
